@@ -117,9 +117,10 @@ PROPS = {
         "oracle_props": ["C06"],
         "property_files": ["C06.v"],
         "expected_theorems": ["C06_metropolis_slot_spec", "C06_heatbath_slot_spec", "C06_diagonal_update_keeps_worldline", "C06_refresh_keeps_worldline",
-                              "C06_padding_keeps_worldline", "C06_swap_keeps_worldline", "C06_itime_fold_states", "C06_itime_fold_one_per_slot", "C06_cluster_flip_keeps_worldline"],
+                              "C06_padding_keeps_worldline", "C06_swap_keeps_worldline", "C06_itime_fold_states", "C06_itime_fold_one_per_slot", "C06_cluster_flip_keeps_worldline",
+                              "C06_loop_update_keeps_worldline", "C06_loop_update_keeps_worldline_outcomes", "C06_segment_flip_keeps_worldline", "C06_segment_flip_across_time_boundary"],
         "assumptions": [
-            "the cluster flip is proved for validated labellings (validator evaluated on every correspondence case); world-line preservation by the directed loop and the RVB update is decided by the independent world-line checker after every call plus the bit-exact model correspondence (loop), not by a Coq theorem",
+            "the cluster flip is proved for validated labellings (validator evaluated on every correspondence case); world-line preservation by the directed loop is a Coq theorem for every start and every sequence of exit choices (premise: operators well formed — variables in range and distinct, one value per leg — evaluated on every correspondence case); for the RVB update it is decided by the independent world-line checker after every call plus the bit-exact model correspondence and an in-Coq evaluation of wf on every replayed result, not by a theorem",
             "containers are never longer than the cutoff (set_cutoff lowering is outside a run)",
         ],
         "trusted_base": ["Model/Steps.v, Model/Cluster.v, Model/Loop.v transcriptions validated by whole-call tape replay"],
@@ -245,9 +246,9 @@ PROPS = {
         "property_files": ["C04.v"],
         "expected_theorems": ["C04_vertex_balance", "C04_exit_weight_is_new_weight", "C04_reverse_total", "C04_bounce_unchanged",
                               "C04_metropolis_slot_reversible", "C04_cluster_gate", "C04_symmetry_meaning", "C04_weights_nonneg",
-                              "C04_loop_keeps_leg_parity", "C04_diagonal_ops_even", "C04_loop_never_stores_nonpositive"],
+                              "C04_loop_keeps_leg_parity", "C04_diagonal_ops_even", "C04_loop_never_stores_nonpositive", "C04_loop_closes_consistently"],
         "assumptions": [
-            "PARTIAL: vertex-level detailed balance of the directed loop (for every Hamiltonian, arity and leg pair), slot-level reversibility of the diagonal update and the cluster gate are proved; closure of a loop into a consistent configuration is decided by the world-line checker plus the bit-exact loop correspondence (C06); convergence by exact diagonalisation",
+            "PARTIAL: vertex-level detailed balance of the directed loop (for every Hamiltonian, arity and leg pair), slot-level reversibility of the diagonal update and the cluster gate are proved; closure of a loop into a consistent configuration is proved for every start and exit sequence (C04_loop_closes_consistently); convergence is decided by exact diagonalisation",
             "KNOWN FINDING odd-parity: interaction sets whose only spin-flip elements have odd leg parity (single-site matrices that are not constant, e.g. [2,1,1,0.5]) are accepted but not sampled ergodically (C04_loop_keeps_leg_parity explains why)",
         ],
         "trusted_base": ["Model/Loop.v, Model/Steps.v transcriptions validated by whole-call raw-tape replay", "exact diagonalisation oracle"],
